@@ -44,6 +44,8 @@ type cfg struct {
 	// multiplexing layer that implements them on its own and never forwards them to the
 	// transport): whatever Dial does to the transport directly it has to undo itself
 	sessionWrap bool
+	// noDeadlines: the transport refuses SetDeadline (returns an error, arms nothing)
+	noDeadlines bool
 	// longRequest: extension offers, subprotocols and an extra header through a 64-byte write
 	// buffer, so that the request goes out in several writes (some from inside the option and
 	// header writers)
@@ -69,6 +71,9 @@ func (c cfg) String() string {
 	}
 	if c.sessionWrap {
 		s += " wrapconn-keeping-deadlines-to-itself"
+	}
+	if c.noDeadlines {
+		s += " transport-refusing-deadlines"
 	}
 	return s
 }
@@ -180,6 +185,7 @@ func execute(c *explore.Chooser, cf cfg, t *explore.T) *explore.Fail {
 	var out dialOutcome
 	done := make(chan struct{})
 	w.partialWrites = cf.partialWrites
+	w.refuseDeadlines = cf.noDeadlines
 	go runDial(d, cf.via, ctx, cf.scheme+"://example.com/chat", &out, done)
 	cleanup := func() {
 		w.abort()
@@ -299,7 +305,7 @@ func execute(c *explore.Chooser, cf cfg, t *explore.T) *explore.Fail {
 			v = c.Choose(len(acts), 0, "act")
 		}
 		w.mu.Lock()
-		if hc != nil && hc.err != nil && !ioFinished {
+		if hc != nil && hc.err != nil && !ioFinished && !returned {
 			ctxEndedBeforeIOFinished = true
 		}
 		lbl := acts[v].do()
@@ -309,8 +315,12 @@ func execute(c *explore.Chooser, cf cfg, t *explore.T) *explore.Fail {
 		if peerReady && w.readsServed >= len(w.peer.chunks) && w.peer.silentAt < 0 && strings.HasPrefix(lbl, "read:data") {
 			ioFinished = true
 		}
+		if lbl == "read:own-timeout" && !(hc != nil && hc.err != nil) {
+			// the transport's own timeout ended the handshake I/O while the context was still alive
+			ioFinished = true
+		}
 		if strings.HasPrefix(lbl, "cancel") || strings.HasPrefix(lbl, "advance") {
-			if hc != nil && hc.err != nil && !ioFinished {
+			if hc != nil && hc.err != nil && !ioFinished && !returned {
 				ctxEndedBeforeIOFinished = true
 			}
 		}
@@ -471,7 +481,8 @@ func main() {
 								cfg{ctxKind: ck, timeout: to, peer: p, scheme: sch, longRequest: true, partialWrites: true})
 						}
 						if sch == "ws" && p == "responsive1" && to != "long" {
-							cfgs = append(cfgs, cfg{ctxKind: ck, timeout: to, peer: p, scheme: sch, sessionWrap: true})
+							cfgs = append(cfgs, cfg{ctxKind: ck, timeout: to, peer: p, scheme: sch, sessionWrap: true},
+								cfg{ctxKind: ck, timeout: to, peer: p, scheme: sch, noDeadlines: true})
 						}
 						if ck != "background" && sch == "ws" && (p == "responsive1" || p == "silent0") {
 							cfgs = append(cfgs, cfg{ctxKind: ck, timeout: to, peer: p, scheme: sch, preCancelled: true})
